@@ -136,16 +136,23 @@ def BNet.init {V α : Type} (n : Nat) (first : Nat → Nat) (a : α) : BNet V α
     cliRx := fun _ => { St.init true a with authenticated := true },
     dropped := [], sent := [] }
 
-/-- BEFORE the end of the handshake: every protocol instance is still in LINE mode (the bus's instances have had their
-NUL byte; whatever lines came before are reflected in the authenticator state `a`), and each wire starts with the
-remaining authentication lines `hsUp c` / `hsDown c` - the bytes `Spec.unlines (lines ++ [last])`, whose last line
-makes the receiving authenticator report success (`BEGIN` for the bus, `OK …` for a client).  Message bytes written
-afterwards queue up BEHIND them, so a read may hand the receiver the final handshake line and message bytes together
-(the hand-off of `dataReceived`, C04 `handoff`).  Who writes these lines and when is C06/C07's. -/
-def BNet.initH {V α : Type} (n : Nat) (first : Nat → Nat) (a : α) (hsUp hsDown : Nat → Bytes) : BNet V α :=
+/-- A SYNTHETIC start before the end of the handshake.  Per link and direction: either the receiver is already in binary
+mode (`hs = []`), or it is still in LINE mode (a bus-side instance after its NUL byte; whatever lines it has had are
+reflected in its authenticator state `aUp c` / `aDown c`) and the wire starts with the authentication lines it still
+expects (`Spec.unlines (lines ++ [last])`, the last one making its authenticator report success: `BEGIN` at the bus,
+`OK …` at a client); message bytes written afterwards queue up BEHIND them, so a read may hand the receiver the final
+handshake line and message bytes together (the hand-off of `dataReceived`, C04 `handoff`).
+NOT the real handshake: that is a DIALOGUE (the bus writes `OK` while reading `AUTH`, the client writes `BEGIN` while
+reading `OK`: C06/C07, Auth/Handshake2.lean) - here the expected lines are simply already on the wire and nobody writes
+a line in response; and the first message behind `BEGIN` is `Hello`, which this model does not have.  The state a real
+connection is in between the client's `BEGIN` and the bus's reading it is the instance `hsUp c = BEGIN\r\n`,
+`hsDown c = []`. -/
+def BNet.initH {V α : Type} (n : Nat) (first : Nat → Nat) (aUp aDown : Nat → α) (hsUp hsDown : Nat → Bytes) : BNet V α :=
   { n := n, cl := fun j => Client.init (first j), upWire := hsUp, downWire := hsDown,
-    busRx := fun _ => { St.init false a with firstByte := false },
-    cliRx := fun _ => St.init true a,
+    busRx := fun j => if (hsUp j).isEmpty then { St.init false (aUp j) with authenticated := true, firstByte := false }
+                      else { St.init false (aUp j) with firstByte := false },
+    cliRx := fun j => if (hsDown j).isEmpty then { St.init true (aDown j) with authenticated := true }
+                      else St.init true (aDown j),
     dropped := [], sent := [] }
 
 /-- nothing on any wire, nothing buffered by any receiver, no unfired Deferred -/
